@@ -37,6 +37,9 @@ Definition post_matches (st : cstore) (p : xpost) : bool :=
   && match c_client st with Some cs => height_eqb (latest_height cs) (xp_latest p) | None => true end
   && cons_list_eqb (c_cons st) (xp_cons p).
 
+(** Which recent-signer key parser /repo HEAD has (Model/Halt.v [strict]): flipped when the repair lands. *)
+Definition head_strict : bool := false.
+
 (** Model vs implementation.  Kinds: 1 validation class, 2 execution class, 3 projected state,
     4 executed although not validated. *)
 Fixpoint cmp_xsteps (now : N) (i : nat) (s : xstate) (l : list xstep_obs) : list (nat * nat) :=
@@ -49,9 +52,9 @@ Fixpoint cmp_xsteps (now : N) (i : nat) (s : xstate) (l : list xstep_obs) : list
       else if negb (Nat.eqb v 0) then
         (if Nat.eqb (xo_x o) 9 then cmp_xsteps now (S i) s l' else [(i, 4%nat)])
       else
-        let r := handle_xprop now s p in
+        let r := handle_xprop now head_strict s p in
         if negb (Nat.eqb (oclass r) (xo_x o)) then [(i, 2%nat)]
-        else match gov_exec (handle_xprop now) s p with
+        else match gov_exec (handle_xprop now head_strict) s p with
              | Panic => []
              | Err => []
              | Ok s' =>
